@@ -37,6 +37,12 @@ C20Comp(comp, nd) ==
   /\ IsPart(nd, comp)  => nd.st.o = nd.st.c
   /\ IsAbsRT(nd, comp) => Stutters(AbsOf(nd.st.o), AbsOf(nd.st.c))
 C20Export(nd) == nd.a = "RT" => nd.st.exported /\ nd.st.imported
+(* id spaces (IdSpace: every id-numbered record family at a round-trip point; AbsRT: the model histories): no live   *)
+(* record of the re-imported chain may carry an id above its counter - the next allocation would overwrite it. This  *)
+(* is Genesis.tla's NoCollision; it is implied by the stuttering of the counter and the live set, and it separates   *)
+(* "a closed highest id is assigned again" (open findings, needs genesis fields) from "a LIVE record is overwritten" *)
+IsIdSpace(nd) == nd.a = "IdSpace" \/ nd.a = "AbsRT"
+C20NoCollision(nd) == IsIdSpace(nd) /\ NoCollision(AbsOf(nd.st.o)) => NoCollision(AbsOf(nd.st.c))
 
 (* ---- C20 (2): continuations behave identically ------------------------------------------------------ *)
 C20ContResults(nd) ==
@@ -58,13 +64,14 @@ ConfOp(nd, isOpen) ==
      LET r == Apply(AbsOf(nd.st.pre), nd.args.op) IN
      nd.res.ok = r.ok /\ AbsOf(nd.st.abs) = r.st
 
-Formulas == <<"Conf_Open", "Conf_Close", "C20_Export", "C20_Continuation_Results", "C20_Continuation_Balances",
+Formulas == <<"Conf_Open", "Conf_Close", "C20_Export", "C20_NoCollision", "C20_Continuation_Results", "C20_Continuation_Balances",
               "C20_Continuation_Ids">> \o [k \in 1..Len(Comps) |-> "C20_" \o Comps[k]]
 Holds(f, i) ==
   LET nd == Nd(i) IN
   CASE f = "Conf_Open"  -> ConfOp(nd, TRUE)
     [] f = "Conf_Close" -> ConfOp(nd, FALSE)
     [] f = "C20_Export" -> C20Export(nd)
+    [] f = "C20_NoCollision" -> C20NoCollision(nd)
     [] f = "C20_Continuation_Results"  -> C20ContResults(nd)
     [] f = "C20_Continuation_Balances" -> C20ContBalances(nd)
     [] f = "C20_Continuation_Ids"      -> C20ContIds(nd)
@@ -85,6 +92,11 @@ Stats == PrintT(<<"STATS", [nodes |-> NLog,
    contTxOk  |-> Count(LAMBDA n : n.a = "ContTx" /\ n.st.o.ok),
    contIds   |-> Count(LAMBDA n : n.a = "ContId"),
    contBal   |-> Count(LAMBDA n : n.a = "ContBal"),
+   idSpaces  |-> Count(LAMBDA n : n.a = "IdSpace"),
+   idSpacesLive |-> Count(LAMBDA n : n.a = "IdSpace" /\ Len(n.st.o.live) > 0),
+   idSpacesSharedOutOfOrder |-> Count(LAMBDA n : n.a = "IdSpace" /\ n.args.comp = "LockedVaultV2" /\ n.st.o.outOfKeyOrder),
+   adminRejected |-> Count(LAMBDA n : n.a = "ContTx" /\ n.args.aspect = "admin" /\ ~n.st.o.ok),
+   adminAccepted |-> Count(LAMBDA n : n.a = "ContTx" /\ n.args.aspect = "admin" /\ n.st.o.ok),
    absOps    |-> Count(LAMBDA n : n.a = "AbsOp"),
    absCloses |-> Count(LAMBDA n : n.a = "AbsOp" /\ n.args.op # "open" /\ n.res.ok),
    absRT     |-> Count(LAMBDA n : n.a = "AbsRT"),
